@@ -1,0 +1,8 @@
+//go:build verif
+
+package tbtc
+
+// Verification hook (build tag verif): re-exports existing identifiers only.
+
+const VerifC28DepositScriptFormat = depositScriptFormat
+const VerifC28DepositWithExtraDataScriptFormat = depositWithExtraDataScriptFormat
